@@ -1,4 +1,6 @@
 import TypstyleModel.Model.Cert
+import TypstyleModel.Model.Text
+import TypstyleModel.Proofs.Lay
 /-! Unit-indexed documents: the printer does not build one `pretty` document but the whole
 family `u ↦ document at indent unit u`, together with the kernel-checked proof that the member at
 unit `u` is `scale u` of the member at unit 1.  Every builder operation the printer uses is lifted
@@ -55,42 +57,233 @@ theorem mkText_closed (wd : String → Nat) (t : Tag) (s : String) : (mkText wd 
 
 end Pretty
 
-namespace Twin
-open Pretty (scale)
+namespace Pretty
+open Typstyle (isWs)
 
-/-- The family of documents, one per indent unit, related by `scale`. -/
+/-! ### the token text of a layout -/
+
+/-- Characters the printer may re-synthesise (delimiters and separators) — together with blanks
+they are the only characters the token-preservation theorem does not account for. -/
+def isDelimChar (c : Char) : Bool :=
+  c == '(' || c == ')' || c == '{' || c == '}' || c == ',' || c == ';' || c == ':'
+
+def keepChar (c : Char) : Bool := !isWs c && !isDelimChar c
+
+/-- The kept characters of a string. -/
+def keepOf (s : String) : String := String.ofList (s.toList.filter keepChar)
+
+/-- The characters a text with tag `t` contributes to stream `c` (`c = false`: code tokens — kept
+characters of everything that is not a comment; `c = true`: comments — all non-blank characters of
+comment atoms). -/
+def charsOf (c : Bool) (t : Tag) (s : String) : List Char :=
+  if c then (if t = .comment then s.toList.filter (fun x => !isWs x) else [])
+  else (if t = .comment then [] else s.toList.filter keepChar)
+
+def atomChars (c : Bool) : Atom → List Char
+  | .txt s t => charsOf c t s
+  | .nl _ => []
+
+/-- Text of stream `c` in a layout, in order. -/
+def streamText (c : Bool) (xs : List Atom) : List Char := xs.flatMap (atomChars c)
+
+/-- Token text of a layout: the kept characters of every atom that is not a comment, in order. -/
+abbrev tokText (xs : List Atom) : List Char := streamText false xs
+/-- Comment text of a layout: the non-blank characters of the comment atoms, in order. -/
+abbrev cmtText (xs : List Atom) : List Char := streamText true xs
+
+theorem streamText_append (c : Bool) (xs ys : List Atom) : streamText c (xs ++ ys) = streamText c xs ++ streamText c ys := by
+  simp [streamText]
+
+/-- Every layout of `d`, in either mode, has text `s` in stream `c`. -/
+def EmitsS (c : Bool) (d : Doc) (s : List Char) : Prop := ∀ m xs, Lay m d xs → streamText c xs = s
+abbrev EmitsT (d : Doc) (s : List Char) : Prop := EmitsS false d s
+
+theorem lay_app' {m a b xs} (h : Lay m (a ++ b) xs) : ∃ xa xb, xs = xa ++ xb ∧ Lay m a xa ∧ Lay m b xb := by
+  change Lay m (Doc.app a b) xs at h
+  unfold Doc.app at h
+  split at h
+  · exact ⟨[], xs, rfl, Lay.nil, h⟩
+  · exact ⟨xs, [], by simp, h, Lay.nil⟩
+  · cases h with
+    | append h1 h2 => exact ⟨_, _, rfl, h1, h2⟩
+
+theorem EmitsS.app {c a b sa sb} (ha : EmitsS c a sa) (hb : EmitsS c b sb) : EmitsS c (a ++ b) (sa ++ sb) := by
+  intro m xs h
+  obtain ⟨xa, xb, rfl, h1, h2⟩ := lay_app' h
+  rw [streamText_append, ha m xa h1, hb m xb h2]
+
+theorem EmitsS.grp {c d s} (h : EmitsS c d s) : EmitsS c d.grp s := by
+  intro m xs hl
+  unfold Doc.grp at hl
+  split at hl
+  · exact h m xs hl
+  · exact h m xs hl
+  · split at hl
+    · exact h m xs hl
+    · cases hl with
+      | groupSame h' => exact h _ _ h'
+      | groupFlat h' => exact h _ _ h'
+  · cases hl with
+    | groupSame h' => exact h _ _ h'
+    | groupFlat h' => exact h _ _ h'
+
+theorem EmitsS.nst {c d s n} (h : EmitsS c d s) : EmitsS c (d.nst n) s := by
+  intro m xs hl
+  unfold Doc.nst at hl
+  split at hl
+  · exact h m xs hl
+  · split at hl
+    · exact h m xs hl
+    · cases hl with
+      | nest h' => exact h _ _ h'
+
+theorem EmitsS.falt {c b f s} (hb : EmitsS c b s) (hf : EmitsS c f s) : EmitsS c (Doc.falt b f) s := by
+  intro m xs hl
+  cases hl with
+  | flatAltB h' => exact hb _ _ h'
+  | flatAltF h' => exact hf _ _ h'
+
+theorem EmitsS.mkText (c : Bool) (wd : String → Nat) (t : Tag) (s : String) :
+    EmitsS c (mkText wd t s) (charsOf c t s) := by
+  intro m xs h
+  unfold Pretty.mkText at h
+  split at h
+  · rename_i he
+    cases h
+    have : s = "" := by simpa using he
+    subst this
+    cases c <;> simp [streamText, charsOf]
+  · cases h
+    simp [streamText, atomChars]
+
+/-- Every text of the document is tagged as comment text, and there are no alternatives
+(`flat_alt`): a converted comment. -/
+def Doc.commentOnly : Doc → Bool
+  | .text _ _ t => t == .comment
+  | .append a b => a.commentOnly && b.commentOnly
+  | .group d => d.commentOnly
+  | .flatAlt _ _ => false
+  | .nest _ d => d.commentOnly
+  | .align d => d.commentOnly
+  | _ => true
+
+/-- The non-blank characters of all texts of the document, in order. -/
+def Doc.allChars : Doc → List Char
+  | .text s _ _ => s.toList.filter (fun x => !isWs x)
+  | .append a b => a.allChars ++ b.allChars
+  | .group d => d.allChars
+  | .flatAlt b _ => b.allChars
+  | .nest _ d => d.allChars
+  | .align d => d.allChars
+  | _ => []
+
+theorem commentOnly_emits {m : Mode} {d : Doc} {xs : List Atom} (hl : Lay m d xs) :
+    d.commentOnly = true → streamText false xs = [] ∧ streamText true xs = d.allChars := by
+  induction hl with
+  | nil => intro _; exact ⟨rfl, rfl⟩
+  | text =>
+    intro h; simp only [Doc.commentOnly, beq_iff_eq] at h
+    simp [streamText, atomChars, charsOf, h, Doc.allChars]
+  | hardline => intro _; exact ⟨rfl, rfl⟩
+  | append _ _ iha ihb =>
+    intro h; simp only [Doc.commentOnly, Bool.and_eq_true] at h
+    rw [streamText_append, streamText_append, (iha h.1).1, (ihb h.2).1, (iha h.1).2, (ihb h.2).2]
+    exact ⟨rfl, rfl⟩
+  | groupSame _ ih => intro h; exact ih (by simpa [Doc.commentOnly] using h)
+  | groupFlat _ ih => intro h; exact ih (by simpa [Doc.commentOnly] using h)
+  | flatAltB _ _ => intro h; simp [Doc.commentOnly] at h
+  | flatAltF _ _ => intro h; simp [Doc.commentOnly] at h
+  | nest _ ih => intro h; exact ih (by simpa [Doc.commentOnly] using h)
+  | align _ ih => intro h; exact ih (by simpa [Doc.commentOnly] using h)
+
+end Pretty
+
+namespace Twin
+open Pretty (scale EmitsS keepOf charsOf)
+
+/-- The family of documents, one per indent unit, related by `scale`; together with the token text
+`toks` and the comment text `cmts` that every layout of every member carries (when `good`: the dynamic
+side conditions — both alternatives of a `flat_alt` carry the same streams, a comment document holds
+only comment text — held). -/
 structure Doc where
   fam : Nat → Pretty.Doc
   rel : ∀ u, 0 < u → fam u = scale u (fam 1)
+  toks : String
+  cmts : String
+  good : Bool
+  emits : good = true → ∀ u, EmitsS false (fam u) toks.toList ∧ EmitsS true (fam u) cmts.toList
 
-/-- A document without indentation steps (text, line breaks, comments): the same at every unit. -/
+/-- A comment (plain closed document): it contributes no tokens, and its non-blank characters to the comment stream. -/
 def Doc.ofClosed (d : Pretty.Doc) (h : d.closed = true) : Doc :=
-  ⟨fun _ => d, fun u _ => (Pretty.scale_closed u d h).symm⟩
-
-def Doc.nil : Doc := .ofClosed .nil rfl
-instance : Inhabited Doc := ⟨Doc.nil⟩
+  { fam := fun _ => d
+    rel := fun u _ => (Pretty.scale_closed u d h).symm
+    toks := ""
+    cmts := String.ofList d.allChars
+    good := d.commentOnly
+    emits := fun hg _ =>
+      ⟨fun m xs hl => by simpa using (Pretty.commentOnly_emits hl hg).1,
+       fun m xs hl => by simpa using (Pretty.commentOnly_emits hl hg).2⟩ }
 
 def mkText (wd : String → Nat) (tag : Pretty.Tag) (s : String) : Doc :=
-  .ofClosed (Pretty.mkText wd tag s) (Pretty.mkText_closed wd tag s)
+  { fam := fun _ => Pretty.mkText wd tag s
+    rel := fun u _ => (Pretty.scale_closed u _ (Pretty.mkText_closed wd tag s)).symm
+    toks := String.ofList (charsOf false tag s)
+    cmts := String.ofList (charsOf true tag s)
+    good := true
+    emits := fun _ _ => ⟨by simpa using Pretty.EmitsS.mkText false wd tag s, by simpa using Pretty.EmitsS.mkText true wd tag s⟩ }
+
+def Doc.nil : Doc := mkText (fun _ => 0) .soft ""
+instance : Inhabited Doc := ⟨Doc.nil⟩
 
 def Doc.app (a b : Doc) : Doc :=
-  ⟨fun u => a.fam u ++ b.fam u, fun u hu => by rw [a.rel u hu, b.rel u hu, Pretty.scale_app]⟩
+  { fam := fun u => a.fam u ++ b.fam u
+    rel := fun u hu => by rw [a.rel u hu, b.rel u hu, Pretty.scale_app]
+    toks := a.toks ++ b.toks
+    cmts := a.cmts ++ b.cmts
+    good := a.good && b.good
+    emits := fun hg u => by
+      simp only [Bool.and_eq_true] at hg
+      exact ⟨by simpa using Pretty.EmitsS.app (a.emits hg.1 u).1 (b.emits hg.2 u).1,
+             by simpa using Pretty.EmitsS.app (a.emits hg.1 u).2 (b.emits hg.2 u).2⟩ }
 instance : Append Doc := ⟨Doc.app⟩
 
 def Doc.grp (d : Doc) : Doc :=
-  ⟨fun u => (d.fam u).grp, fun u hu => by rw [d.rel u hu, Pretty.scale_grp]⟩
+  { d with fam := fun u => (d.fam u).grp
+           rel := fun u hu => by rw [d.rel u hu, Pretty.scale_grp]
+           emits := fun hg u => ⟨Pretty.EmitsS.grp (d.emits hg u).1, Pretty.EmitsS.grp (d.emits hg u).2⟩ }
 
 /-- `nest(config.tab_spaces)`: the only way the printer indents. -/
 def Doc.nstTab (d : Doc) : Doc :=
-  ⟨fun u => (d.fam u).nst u, fun u hu => by
-    show (d.fam u).nst u = scale u ((d.fam 1).nst 1)
-    rw [Pretty.scale_nst u hu, d.rel u hu, Nat.one_mul]⟩
+  { d with fam := fun u => (d.fam u).nst u
+           rel := fun u hu => by
+             show (d.fam u).nst u = scale u ((d.fam 1).nst 1)
+             rw [Pretty.scale_nst u hu, d.rel u hu, Nat.one_mul]
+           emits := fun hg u => ⟨Pretty.EmitsS.nst (d.emits hg u).1, Pretty.EmitsS.nst (d.emits hg u).2⟩ }
 
+/-- `flat_alt`: both alternatives must carry the same tokens and comments (checked, recorded in `good`). -/
 def Doc.falt (b f : Doc) : Doc :=
-  ⟨fun u => Pretty.Doc.falt (b.fam u) (f.fam u), fun u hu => by rw [b.rel u hu, f.rel u hu, Pretty.scale_falt]⟩
+  { fam := fun u => Pretty.Doc.falt (b.fam u) (f.fam u)
+    rel := fun u hu => by rw [b.rel u hu, f.rel u hu, Pretty.scale_falt]
+    toks := b.toks
+    cmts := b.cmts
+    good := b.good && f.good && b.toks == f.toks && b.cmts == f.cmts
+    emits := fun hg u => by
+      simp only [Bool.and_eq_true, beq_iff_eq] at hg
+      obtain ⟨⟨⟨hb, hf⟩, ht⟩, hc⟩ := hg
+      have hf1 := (f.emits hf u).1
+      have hf2 := (f.emits hf u).2
+      rw [← ht] at hf1
+      rw [← hc] at hf2
+      exact ⟨Pretty.EmitsS.falt (b.emits hb u).1 hf1, Pretty.EmitsS.falt (b.emits hb u).2 hf2⟩ }
 
-def space : Doc := .ofClosed Pretty.space rfl
-def hardline : Doc := .ofClosed Pretty.hardline rfl
+def space : Doc := mkText (fun _ => 0) .soft " "
+def hardline : Doc :=
+  { fam := fun _ => Pretty.hardline
+    rel := fun _ _ => rfl
+    toks := ""
+    cmts := ""
+    good := true
+    emits := fun _ _ => ⟨fun m xs hl => by cases hl; rfl, fun m xs hl => by cases hl; rfl⟩ }
 def line : Doc := Doc.falt hardline space
 def line_ : Doc := Doc.falt hardline .nil
 
